@@ -12,7 +12,10 @@ Properties_C03_approx.v / Properties_C03_approx_trees.v (the TBB dropped-edge bu
 tie: harness/c05_tbb.cpp = unchanged headers on the controllable TBB shim under a bit-stream schedule and explicit, independent
 insertion orders of the two concurrent_vectors; emitted cycles in emission order, returned value and schedule bits consumed must agree
 exactly with the extracted model; TBB and sequential entry points must return the same value and the same multiset of dropped-edge
-cycles)."""
+cycles).
+Outside the exact domain (no model, no theorem): a small stream of INEXACT double weights (decimals such as 0.7, 0.1+0.2 given as hex floats; harness
+kind Y) on cycles C_2k at k = half the length, C_2k with chords and small dense graphs is judged STRUCTURALLY only (count, simple cycles of the caller's
+graph, independent, returned value = sum of the emitted weights up to 1e-9 relative): tools/approx_common.py inexact_cases / judge_inexact."""
 import lib, approx_common
 
 PID = "C05"
@@ -44,7 +47,9 @@ def check(tier, seed):
                     "and judges every emitted family of the public entry points after they returned: m-n+c cycles, ids of the caller's graph (a leaked internal "
                     "descriptor prints as ?), simple, independent, returned value = sum of the caller's weights. "
                     "The three *_tbb entry points run under the controllable TBB shim: exact agreement with the extracted approx_run_tbb (cycles in emission order, value, bits consumed), "
-                    "same value / multiset of dropped-edge cycles as the sequential entry points, every answer judged.")
+                    "same value / multiset of dropped-edge cycles as the sequential entry points, every answer judged. "
+                    "Inexact double weights (outside the exact domain the theorems and models speak about) are covered by a structural judgement only: the emitted "
+                    "family must still be m-n+c independent simple cycles of the caller's graph and the returned value their total weight up to rounding.")
 
 
 def replay(path):
